@@ -25,6 +25,7 @@ type memTsm struct {
 	known   map[string]int // digest bytes -> call number
 	n       int
 	rng     *rand.Rand
+	fault   string // the write operation that fails during the current call: "mkdir" | "index" | "digest" | ""
 }
 
 type tsmEntry struct {
@@ -63,8 +64,12 @@ func (t *memTsm) MkdirTemp(dir, pattern string) (string, error) {
 	for t.find(name) != nil {
 		name += "x"
 	}
+	if t.fault == "mkdir" {
+		t.events = append(t.events, Event{"ev": "Op", "op": "MkdirTemp", "entry": 0, "dir": dir, "failed": true})
+		return "", fmt.Errorf("scripted TSM fault: mkdir: no space left on device")
+	}
 	e := t.add(name, -1)
-	t.events = append(t.events, Event{"ev": "Op", "op": "MkdirTemp", "entry": e.pos, "dir": dir})
+	t.events = append(t.events, Event{"ev": "Op", "op": "MkdirTemp", "entry": e.pos, "dir": dir, "failed": false})
 	return dir + "/" + name, nil
 }
 
@@ -123,7 +128,7 @@ func (t *memTsm) WriteFile(name string, contents []byte) error {
 	if e != nil {
 		pos = e.pos
 	}
-	ev := Event{"ev": "Op", "op": "WriteFile", "entry": pos, "attr": attr, "len": len(contents), "val": -99, "digestOk": false}
+	ev := Event{"ev": "Op", "op": "WriteFile", "entry": pos, "attr": attr, "len": len(contents), "val": -99, "digestOk": false, "failed": false}
 	defer func() { t.events = append(t.events, ev) }()
 	if err != nil {
 		return err
@@ -135,11 +140,19 @@ func (t *memTsm) WriteFile(name string, contents []byte) error {
 			return perr
 		}
 		ev["val"] = v
+		if t.fault == "index" {
+			ev["failed"] = true
+			return fmt.Errorf("scripted TSM fault: index: input/output error")
+		}
 		e.idx = v
 		return nil
 	case "digest":
 		id := t.known[string(contents)]
 		ev["digestOk"] = id != 0 && len(contents) == 48
+		if t.fault == "digest" {
+			ev["failed"] = true
+			return fmt.Errorf("scripted TSM fault: digest: permission denied")
+		}
 		if id == 0 {
 			id = -1
 		}
@@ -200,6 +213,19 @@ func RunRtmrCase(cs map[string]any, id int, seed int64) Result {
 		r := ri.(map[string]any)
 		callNo := k + 1
 		index := int(r["index"].(float64))
+		switch { // codes for indices beyond 32 bits
+		case index >= 2000000 && index < 2000100:
+			index = 1<<62 + (index - 2000000)
+		case index >= 1000000 && index < 1000100:
+			index = 1<<32 + (index - 1000000)
+		}
+		if r["fault"] == nil {
+			r["fault"] = "none"
+		}
+		t.fault = ""
+		if f := r["fault"].(string); f != "none" {
+			t.fault = f
+		}
 		evs = append(evs, Event{"ev": "Req", "r": r, "k": callNo})
 		var out Outcome
 		var digest []byte
